@@ -187,6 +187,45 @@ def run(ctx):
     ctx.count(nlin, distinct_key="linearity")
     ctx.part("linearity", evaluations=nlin)
 
+    # ---- (2b) partial sums under every amplitude-evaluation strategy ------------
+    # (amp_model, preprocessor) pairs admitted by spec/Strategies.tla's PairOK: selecting a subset of
+    # chains must give the default model's density for that subset, whatever strategy evaluates it
+    pairs = [("cached_amp", "cached_amp"), ("cached_shape", "cached_shape"), ("p4_directly", "p4_directly"), ("base_factor", "default")]
+    params3 = {k: float(v) for k, v in amp3.get_params().items()}
+    ref = {}
+    dg3 = amp3.decay_group
+    subsets = [list(c) for n in range(1, 4) for c in itertools.combinations(range(3), n)]
+    for sub in subsets:
+        dg3.set_used_chains(sub)
+        ref[tuple(sub)] = np.asarray(amp3.pdf(d3))
+    dg3.set_used_chains([0, 1, 2])
+    nstr = 0
+    for am, pre in pairs:
+        dcfg = models.toy_dict(spin0=False, data={"amp_model": am, "preprocessor": pre})
+        for rn in ("R_BC", "R_BD", "R_CD"):
+            dcfg["particle"][rn].update({"J": 1, "Par": 1})
+        try:
+            cfgs = models.make_config(dcfg)
+            amps = cfgs.get_amplitude()
+            amps.set_params(params3)
+            ds = cfgs.data.cal_angle(p3)
+        except Exception as e:
+            ctx.part("strategy_subsets", **{"not_buildable_%s" % am: 1})
+            continue
+        for sub in subsets:
+            amps.set_used_chains(sub)
+            try:
+                got = np.asarray(amps.pdf(ds))
+            except Exception as e:
+                ctx.violation("subset_under_strategy:%s:chains=%s:raises" % (am, sub), {"error": repr(e)[:200]})
+                continue
+            nstr += 1
+            if not close(got, ref[tuple(sub)], 1e-8):
+                ctx.violation("subset_under_strategy:%s:chains=%s" % (am, sub), {"max_rel": float(np.max(np.abs(got - ref[tuple(sub)]) / np.abs(ref[tuple(sub)])))})
+        amps.set_used_chains([0, 1, 2])
+    ctx.count(nstr, distinct_key="strategy_subsets")
+    ctx.part("strategy_subsets", evaluations=nstr)
+
     # ---- (3) fit fractions: sum rule and batch independence -------------------
     from tf_pwa.applications import fit_fractions
     from tf_pwa.fitfractions import cal_fitfractions, cal_fitfractions_no_grad
